@@ -5,7 +5,7 @@ from checks import common_core as cc
 PID = "C28"
 RULE = ("get_timeout_time(d): boundary table (0, 1 ns, u64::MAX ns, u64::MAX-1, Duration::MAX, u64::MAX s, exactly u64::MAX-now, just above it, ...) + seeded durations across all magnitudes: result must lie in [now_before+d, now_after+d] and be u64::MAX whenever now+d overflows. "
         "get_slices(total, slice != 0): boundary table (exact multiples, +-1 ns, Duration::MAX) + seeded pairs, executed on a helper thread with a 10 s step bound: every piece <= slice, non-empty, pieces sum to total, count == ceil(total/slice). "
-        "Zero socket time limit => unlimited, other values => the option value, observed through recv/send_time_limit after setsockopt. Each case distinct by (function, magnitude class).")
+        "Zero socket time limit => unlimited, other values => the option value, observed through recv/send_time_limit after setsockopt; limits at the edge of u64 nanoseconds set through the hooked setsockopt (tv_sec = 18 446 744 073 with and without a fitting tv_usec, 18 446 744 074, i64::MAX) must be exact while they fit and saturate at u64::MAX when they do not. Each case distinct by (function, magnitude class).")
 
 def run(tier, seed, t0):
     cases = cc.simple(PID, "sys", "helpers", seed, tier, 300000 if tier == "thorough" else 6000, case_timeout=60, shard=250, jobs=32)
